@@ -171,6 +171,23 @@ theorem replacement_untouched :
     (the model's `Tok.map` leaves them in place). -/
 theorem keywords_not_replaced : ∀ k ∈ Fsic.Generated.keywords, replaceFn k = k := by decide
 
+/-- The code of a NON-function term never consults the replacement table: whatever rewriting `g` is applied to
+    function names, a term is rewritten by `tAtom` alone, and what is printed for it is `self._<name>[…]` with the
+    name as written — also when the series is NAMED `exp`, `log`, `max` or `min` (only a CALL is mapped). -/
+theorem term_code_ignores_table (g g' : String → String) (a : SAtom) :
+    (Tok.atom a : Tok SAtom).map tAtom g = (Tok.atom a : Tok SAtom).map tAtom g' ∧
+    (Expr.atom a : Expr SAtom).map tAtom g = .atom (tAtom a) ∧
+    ∀ (k : Kind) (name : String) (i : Int),
+      Tok.lexemes TAtom.codeLexemes false ((Tok.atom ⟨k, name, .rel i⟩ : Tok SAtom).map tAtom g) =
+        ["self", ".", "_" ++ name, "["] ++ (tidx i).lexemes ++ ["]"] :=
+  ⟨rfl, by simp [Expr.map], fun _ _ _ => rfl⟩
+
+/-- `Y = 2 * exp + log[-1] * exp({log})`: the series `exp`, `log` stay series, the call `exp(` is mapped. -/
+example : codeLexemes [.atom ⟨.var, "Y", .rel 0⟩, .chunk "=", .chunk "2", .chunk "*", .atom ⟨.var, "exp", .rel 0⟩, .chunk "+",
+      .atom ⟨.var, "log", .rel (-1)⟩, .chunk "*", .func "exp", .chunk "(", .atom ⟨.param, "log", .rel 0⟩, .chunk ")"] =
+    ["self", ".", "_Y", "[", "t", "]", "=", "2", "*", "self", ".", "_exp", "[", "t", "]", "+",
+     "self", ".", "_log", "[", "t", "-", "1", "]", "*", "np.exp", "(", "self", ".", "_log", "[", "t", "]", ")"] := by decide
+
 /-! ### One evaluation pass -/
 
 /-- Gauss-Seidel: the last equation runs on the store left by all earlier ones. -/
